@@ -275,6 +275,16 @@ def _template(ck: Checker, func_name: str, which: str) -> None:
     a = unparse(cn[0].args[0]), unparse(cn[0].args[1])
     ck.add(f"{which}: chain and next rules are built for the same (predicate, position)", (unparse(cc[0].args[0]), unparse(cc[0].args[1])) == a and (unparse(cp[0].args[0]), unparse(cp[0].args[1])) == a
            and unparse(cd[0].args[0]) == f"{a[0]}.pred", func, cn[0], f"next({a}), chain({unparse(cc[0].args[0])},{unparse(cc[0].args[1])}), domain({unparse(cd[0].args[0])})", "")
+    # the rules that define the order predicates are emitted whenever the order predicates are used: unconditionally,
+    # not once per predicate (they depend on the trigger position as well, and the emitted list belongs to this call)
+    for call, what in ((cd[0], "domain"), (cn[0], "next"), (cc[0], "chain")):
+        stmt_ = enclosing_stmt(func, call)
+        itm = ck.interp(func, None, mark_stmts={id(stmt_): "emitted"})
+        sts = itm.states(cp[0])
+        okm = bool(sts) and all("emitted" in st.marks for st in sts)
+        flows = isinstance(stmt_, ast.Expr) and isinstance(stmt_.value, ast.Call) and isinstance(stmt_.value.func, ast.Attribute) and stmt_.value.func.attr in ("extend", "append")
+        ck.add(f"{which}: the {what} rules are emitted on every path that uses the chain predicate", okm and flows, func, call, f"`{short(unparse(stmt_), 90)}` passed on every path to `{short(unparse(cp[0]), 50)}`: {okm}",
+               "a second statement chaining the same predicate over another position (or a later call) would refer to order predicates nobody defines: its objective level costs 0")
     ck.add(f"{which}: S3 chain in maximum direction", is_const(cc[0].args[2], True) and is_const(cp[0].args[2], True), func, cc[0], f"maximum flags {unparse(cc[0].args[2])}, {unparse(cp[0].args[2])}",
            "chain(G,V) must mean 'the chosen value is >= V': weights value-predecessor then add up to the chosen value")
     # S4: the distinguishing tuple term must carry every group argument; anonymous group arguments cannot
@@ -322,6 +332,36 @@ def _template(ck: Checker, func_name: str, which: str) -> None:
         ck.add(f"{which}: raw group arguments (possibly `_`) only inside atoms of the condition", where == "atom", func, nm, f"`{short(unparse(enclosing_stmt(func, nm)), 100)}` uses `{raw}` " + ("inside a symbolic atom" if where == "atom" else "outside any atom (tuple term)"),
                "`_` inside a tuple term is a variable nothing binds: gringo rejects the statement as unsafe ('#Anon0 is unsafe')", rule="C13.TEMPLATE.anonymous-safe")
     ck.need(uses >= 2, f"{func_name}: uses of the raw group arguments found ({uses})")
+    # ... and the other way round: the anonymous-free list (with the constant `none`) is for tuple terms only
+    clean: set[str] = set()
+    for d in defining:
+        if isinstance(d, ast.For):
+            clean |= {c.func.value.id for c in ast.walk(d) if isinstance(c, ast.Call) and isinstance(c.func, ast.Attribute) and c.func.attr == "append" and isinstance(c.func.value, ast.Name)}
+        else:
+            up = parent(func, d)
+            if isinstance(up, (ast.Assign, ast.AnnAssign)):
+                clean.add(unparse(up.targets[0] if isinstance(up, ast.Assign) else up.target))
+    ck.need(len(clean) == 1, f"{func_name}: the anonymous-free argument list has a name")
+    cname = next(iter(clean))
+    cuses = 0
+    for nm in find_nodes(func.node, lambda x: isinstance(x, ast.Name) and x.id == cname and isinstance(x.ctx, ast.Load)):
+        up = parent(func, nm)
+        if isinstance(up, ast.Attribute) and up.attr in ("append", "add", "extend") and up.value is nm:
+            continue
+        in_atom = False
+        for anc in ancestors(func, nm):
+            if isinstance(anc, ast.Call):
+                fn = unparse(anc.func)
+                if fn == "SymbolicAtom" or (fn.endswith(".symbol.update") and kwarg(anc, "arguments") is not None):
+                    in_atom = True
+                    break
+            if isinstance(anc, ast.stmt):
+                break
+        cuses += 1
+        ck.add(f"{which}: the anonymous-free arguments (`none` for `_`) appear in tuple terms only, never inside an atom of the condition", not in_atom, func, nm,
+               f"`{short(unparse(enclosing_stmt(func, nm)), 100)}` uses `{cname}` " + ("inside a symbolic atom" if in_atom else "in a term"),
+               "inside an atom `none` is a constant that matches nothing: `not __next(D,none,_,L)` is always true, so every chain value is counted with its full weight", rule="C13.TEMPLATE.anonymous-safe")
+    ck.need(cuses >= 1, f"{func_name}: uses of the anonymous-free argument list found ({cuses})")
 
 
 def r_template_elements(ck: Checker) -> None:
@@ -361,7 +401,7 @@ RULES = [
     Rule("C13.get-trigger", PG + ("C03",), r_get_trigger),
     Rule("C13.G.get-var", PG, r_get_var),
     Rule("C13.replace-optimize", PG, r_replace_optimize),
-    Rule("C13.TEMPLATE.elements", PG + ("C04",), r_template_elements),
+    Rule("C13.TEMPLATE.elements", PG + ("C04", "C06"), r_template_elements),
     Rule("C13.TEMPLATE.optimize", PG + ("C04",), r_template_optimize),
     Rule("C13.execute", P, r_execute),
 ]
